@@ -122,7 +122,8 @@ CLAIMED = {
         "port visibility iff the instance is a port, and the documented direction rule (parity of flips on the path, role of the "
         "declaring instance; inout/undirected unchanged); PortDir.flipped (regenerated from the code) is the documented table and an "
         "involution; connections pair both sides by member path. Tied to the code by exhaustive single-leaf chains and random trees, "
-        "exported and compared on ports (name, width, direction), internal signals and instance connections.",
+        "exported (alone and under parents; sub-bundles optionally flagged port=True; two anonymous bundles over the same signals under permuted "
+        "names) and compared on ports (name, width, direction), internal signals and instance connections.",
         note="Model hand-written after flatten_bundles.py; PortDir.flipped regenerated from /repo each run. The predicate judging the "
         "implementation uses the path-indexed rule (leafAt/dirRule), not the regenerated table. Name freshness is C05's.",
         ref="DESIGN.md §6 C10",
@@ -135,7 +136,9 @@ CLAIMED = {
         "running the body or changing state, a completed call is cached (memoisation for any call order and nesting), a "
         "handing-on generator keeps the module's name, a fresh module is named after its own call. Tied to the code by adversarial "
         "parameter values (names compared with the model, all pairs checked equal-params<->equal-names), random acyclic generator "
-        "programs (identity, body-run log, names, co-export), and nested/enum/Prefixed/Module-valued shapes.",
+        "programs over hash-colliding parameter values (identity, body-run log, names, co-export), both call forms for every value (defaults, omitted "
+        "keywords, explicit None), Scalar fields holding Literals that spell a number's name text, enable_cache=False generators whose results "
+        "differ within one design, and nested/enum/Prefixed/Module-valued shapes.",
         note="md5-of-JSON names (non-scalar shapes, >=128 chars) are not modelled: injectivity there assumes md5 collision freedom and "
         "json.dumps injectivity; checked pairwise by correspondence only. Recursion (circular generator calls) is rejected by the code "
         "and not part of the cache model. str()/repr() of numbers trusted injective.",
@@ -222,10 +225,13 @@ CLAIMED = {
         "pass's done mark; any later visit of any pass reaching it through a not-yet-completed path does not complete (never exported); "
         "failure is permanent and failed modules are never rewritten; modules not below the visited top are untouched whatever happens; "
         "a retry fails again; generator calls (GenRun model): a call whose body raised leaves the cache exactly as it was, can be run again and is "
-        "cached once its body returns, and no call leaves a pending mark. The runner model is tied to ElabPass / Elaborator by marker passes "
+        "cached once its body returns, and no call leaves a pending mark; for generators that call generators (event trees: nested calls, failures "
+        "caught or propagated at any depth) nothing is left pending after any history, 'circular dependency' is reported only when the event tree "
+        "really nests a call inside the same call, a call that did not return is run again, one that did is cached for good. The runner model is tied to ElabPass / Elaborator by marker passes "
         "failing at planned points over random DAGs and call sequences (done sets per pass class, remembered errors, ok flag after every call), "
-        "the generator model to the real cache by random plans of failing / returning bodies. Further decided by correspondence: every (pass position, module) injection point through custom pass lists, real "
-        "design faults, and a generator body raising once, each followed by retry / retry with the default elaborator / export of every "
+        "the generator model to the real cache by random plans of failing / returning bodies and random event trees of nested calls. Further decided by correspondence: every (pass position, module) injection point through custom pass lists, real "
+        "design faults, failures in the middle of a pass (the n-th Module.add of the elaboration raises; five exception types; anonymous tops; "
+        "the designer renames / edits before trying again), and a generator body raising once, each followed by retry / retry with the default elaborator / export of every "
         "module not containing the offending one / an unrelated design, in one fresh process per scenario and compared with fresh-process packages.",
         note="Exception texts and BundleFlattener's module-scope cache are covered by the correspondence only.",
         ref="DESIGN.md §6 C08",
@@ -237,8 +243,9 @@ CLAIMED = {
         "computed from portref.ordered() — the order of an instance's connections, invented names — is the same in every process "
         "(order_independent, computed_from_ordered, ordered_perm). The runtime facts no model can exhibit (id()/seed based hashing, "
         "allocation history, protobuf determinism, md5) are decided by correspondence: every generated design and a corpus where one "
-        "bundle feeds several ports of an instance, run in N fresh interpreters with different PYTHONHASHSEED and random unrelated "
-        "allocation/elaboration first; package bytes and spice/spectre/verilog text must be identical.",
+        "bundle (or one anonymous bundle object) feeds several ports of an instance, reference groups with ties, generator programs with hashed / "
+        "over-long / uncached names, run in N fresh interpreters with different PYTHONHASHSEED and random unrelated "
+        "allocation/elaboration — including earlier builds of other cases and of the same design — first; package bytes and spice/spectre/verilog text must be identical.",
         note="The theorem covers the iteration sites routed through portref.ordered(); any other hash-order dependence can only be found by "
         "the multi-interpreter runs (8 seeds quick, 48 thorough).",
         ref="DESIGN.md §6 C12",
@@ -264,7 +271,9 @@ CLAIMED = {
         "capture); inserting under it keeps every existing name. That every call site (create_source, replace_noconn named or not, "
         "replace_bundle_inst, array elements, instance-bundle members) passes the live namespace, and that designer objects keep their "
         "bindings and connections, is decided by correspondence: designer names are renamed to exactly the names the elaborator would "
-        "invent for that design (and trailing-underscore variants); the package must keep unique names (Lean WFpkg), keep every designer "
+        "invent for that design (one at a time, the invented names recomputed after each; trailing-underscore variants; names at the 511-character "
+        "limit), bundle members are renamed so that two flattened names of one bundle coincide, custom InstanceBundleTypes and a fixed corpus of one "
+        "design per clash class are included; the package must keep unique names (Lean WFpkg), keep every designer "
         "signal and instance, and have the same name-free net partition as the friendly-named design.",
         note="Connectivity is compared on name-free descriptors (kind, port, bit, depth), which detects merged / split nets but not a swap "
         "between two identical devices. Rejection of a renamed design is accepted (resolved by raising).",
